@@ -67,6 +67,12 @@ func runCompat(c CompatCase, r *pbt.R) {
 
 			return
 		}
+		if done := max(p.C.HSAt, p.S.HSAt); done >= time.Second {
+			r.Failf(fmt.Sprintf("C02|compatible-configurations|%s|slow|no-fault-needs-a-timer", fam),
+				"perfect network: the handshake completed only at %v, i.e. a retransmission timer had to fire although nothing was lost\nclient %+v\nserver %+v", done, c.C, c.S)
+
+			return
+		}
 		r.Class(fam)
 		r.Class("family:" + c.Meta.Family)
 		if len(c.S.CertsBefore) > 0 {
@@ -89,11 +95,6 @@ func runCompat(c CompatCase, r *pbt.R) {
 func genCompat(t *rapid.T) CompatCase {
 	var c CompatCase
 	c.C, c.S, c.Meta = scen.GenPair(t, scen.GenOpts{})
-	if c.Meta.Dual == "both" {
-		// listed finding (C02|dual-both|...|last-fault=none): a dual-stack pair never completes; excluded by construction
-		c.C.MinVer, c.C.MaxVer = 13, 13
-		c.Meta.Dual = "server"
-	}
 
 	if c.Meta.Version == 12 && rapid.IntRange(0, 3).Draw(t, "resume") == 0 {
 		c.Resume = true
@@ -108,6 +109,6 @@ func init() {
 		Name: "compatible-configurations", Quick: 2500, Thorough: 60000, Gen: genCompat, Run: runCompat, Crashy: true,
 		Rule: "the empty fault set: option pairs generated around an intended agreement (version range, suite lists, curves, EMS policy, certificate chains and key types, several server certificates " +
 			"selected by a mixed-case server name, client certificate chosen by a GetClientCertificate callback from one or two acceptable CAs, client-auth policy, PSK, SRTP, ALPN, CIDs, MTU, hello-verify, session stores with a preceding connection so that the judged one is abbreviated) " +
-			"on a perfect network; oracle: both sides report success (dual-stack on both sides is a listed finding and excluded by construction). non-trivial = every completed case; distinct = option pair",
+			"on a perfect network; oracle: both sides report success, without any retransmission timer having to fire. non-trivial = every completed case; distinct = option pair",
 	})
 }
